@@ -15,9 +15,9 @@ from harness.lib import cb, cl, cn, cz
 PROP = "C03"
 IMPORTS = "Base Fetch"
 RULE = ("histories of 6-22 ops over 3 upstream outputs and 2 two-input nodes (typed/untyped x strict/non-strict per case); "
-        "values: ints, a non-int, NOT_DATA; up to 3 prioritised connections per input; receiver chains up to length 3. "
+        "the hint is int (70%), builtin callable or typing.Callable (admitted values are then callable ints); values: ints, a non-int, NOT_DATA; up to 3 prioritised connections per input; receiver chains up to length 3. "
         "Non-trivial: some input with >=2 connections was fetched/run AND some operation was refused. Distinct by content.")
-TRUSTED = ["hints reduced to int-or-none in this layer (the hint calculus is C04); 'bad' values are python strings"]
+TRUSTED = ["hints reduced to admitted-or-not in this layer (int, builtin callable, typing.Callable; the hint calculus is C04); 'bad' values are python strings"]
 ASSUMPTIONS = ["a TypeError raised by the value setter during fetch counts as 'refused' like a ReadinessError (the function is "
                "not called, outputs untouched, node not failed): the statement's first and third sentence meet there",
                "hint mutation after construction is not an assignment path"]
@@ -52,13 +52,48 @@ def DU(a, b):
     return _w(a) + _w(b)
 
 
+class CInt(int):
+    """an int that is also callable: the admitted values of the `callable` / `typing.Callable` flavours of a case"""
+    def __call__(self):
+        return int(self)
+
+
+import typing  # noqa: E402
+
+
+@as_function_node("y")
+def UpIc(v: callable = CInt(0)) -> callable:
+    return v
+
+
+@as_function_node("y")
+def UpIC(v: typing.Callable = CInt(0)) -> typing.Callable:
+    return v
+
+
+@as_function_node("y")
+def DTc(a: callable, b: callable):
+    nodes.CALLS.append(("D", [a, b]))
+    return _w(a) + _w(b)
+
+
+@as_function_node("y")
+def DTC(a: typing.Callable, b: typing.Callable):
+    nodes.CALLS.append(("D", [a, b]))
+    return _w(a) + _w(b)
+
+
+FLAVOUR = {"int": (UpI, DT), "callable": (UpIc, DTc), "Callable": (UpIC, DTC)}
+_WRAP = [False]     # whether admitted values are delivered as CInt (set per case by build)
+
+
 def val_py(v):
     from pyiron_workflow.channels import NOT_DATA
     if v is None:
         return NOT_DATA
     if isinstance(v, list):
         return f"bad{v[1]}"
-    return v
+    return CInt(v) if _WRAP[0] else v
 
 
 def val_obs(x):
@@ -72,6 +107,10 @@ def val_obs(x):
 
 def gen(rng):
     case = {"typed": [rng.random() < 0.7, rng.random() < 0.5], "u1_typed": rng.random() < 0.5, "ops": []}
+    h = rng.random()
+    if h < 0.3:
+        # the hint the typed channels carry: int, or one whose admission takes another branch of the value check
+        case["hint"] = "callable" if h < 0.2 else "Callable"
     vals = [0, 1, 2, 5, 9, ["bad", 1], ["bad", 2], None]
     if rng.random() < 0.3:
         # a non-int smuggled into a typed input while strictness is off, strictness back on, then a run:
@@ -140,10 +179,12 @@ def corpus(ctx):
 
 
 def build(case):
-    ups = [Up(label="u0"), (UpI if case["u1_typed"] else Up)(label="u1"), Up(label="u2")]
+    up_t, d_t = FLAVOUR[case.get("hint", "int")]
+    _WRAP[0] = case.get("hint", "int") != "int"
+    ups = [Up(label="u0"), (up_t if case["u1_typed"] else Up)(label="u1"), Up(label="u2")]
     for u in ups:
         u.outputs.y.value = val_py(None)
-    ds = [(DT if case["typed"][i] else DU)(label=f"d{i}") for i in range(2)]
+    ds = [(d_t if case["typed"][i] else DU)(label=f"d{i}") for i in range(2)]
     for d in ds:
         d.use_cache = False
         d.recovery = None
@@ -283,7 +324,7 @@ def oracle(case, obs):
         # (3) no strictly hinted channel ever holds a non-int
         for c in range(9):
             if typed[c] and strict[c] and isinstance(vals[c], list) and vals[c] != prev_vals[c]:
-                return f"bad-store: op {op} stored {vals[c]} in the strictly int-hinted channel {c}"
+                return f"bad-store: op {op} stored {vals[c]} in the strictly hinted channel {c}"
         if op[0] in ("fetch", "run"):
             n = op[1]
             ins = [3, 4] if n == 0 else [5, 6]
@@ -312,7 +353,7 @@ def oracle(case, obs):
                 if any(a == "nd" for a in out[1]):
                     return f"ran-on-missing: d{n} was called with NOT_DATA"
                 if any(isinstance(a, list) and typed[c] and strict[c] for a, c in zip(out[1], ins)):
-                    return f"ran-on-ill-typed: d{n} was called with a non-int in a strictly hinted input"
+                    return f"ran-on-ill-typed: d{n} was called with a value its strict hint rejects"
                 if lockd[n] or prev_failed[n]:
                     return f"ran-while-not-ready: d{n} ran although it was running/failed"
             elif op[0] == "run":
